@@ -548,10 +548,40 @@ def r06_14(run, model):
     c03.r03_1(run, model, stages=("matchc",))
 
 
+def r06_17(run, model):
+    run.rule("R06.17", "the Go emitter keeps every clause and statement it has built: in go/compile.rs no filtering or shortening operation "
+                       "(filter, filter_map, retain, take_while, skip_while, dedup, truncate, skip, take, drain, pop, remove, clear) is applied to a "
+                       "collection or iterator of goast pieces (resolved calls: the receiver type mentions `goast::`) - an empty `case 2:` is what "
+                       "keeps the value 2 away from `default:`; expected count zero, the goast-typed calls seen are the control")
+    from lib.mir import Mir, callee_tail
+    mir = Mir(run.facts)
+    GOC = "crates/compiler/src/go/compile.rs"
+    FILT = {"filter", "filter_map", "retain", "retain_mut", "take_while", "skip_while", "dedup", "dedup_by", "dedup_by_key", "truncate", "skip", "take",
+            "step_by", "drain", "pop", "remove", "swap_remove", "clear", "split_off"}
+    n = 0
+    k = 0
+    for c in mir.calls:
+        if c["file"] != GOC or not c["args"] or "goast::" not in c["args"][0]:
+            continue
+        n += 1
+        t = callee_tail(c["callee"])
+        if t in FILT:
+            k += 1
+            fn_ = re.sub(r"(::\{closure#\d+\})+$", "", c["caller"]).split("::")[-1]
+            run.ob("R06.17", f"{fn_}|{t} on a collection of Go syntax", False, site(GOC, [c["line"]]),
+                   f"{c['callee'][:80]} applied to {c['args'][0][:100]}",
+                   witness="while go { match n { 2 => (), _ => string_println(\"other\") } }: the arm `2 => ()` lowers to an empty block, its `case 2:` is "
+                           "filtered out and 2 runs the `_` arm")
+    if k == 0:
+        run.ob("R06.17", "go::compile|nothing it built is filtered away", True, site(GOC, None), f"{n} resolved calls on goast-typed collections / iterators, {k} of them filtering")
+    run.floor("resolved calls on goast-typed values in go/compile.rs", n, 60)
+
+
 def run(run, model):
     mir = Mir(run.facts)
     run.try_rule(r06_1, model, mir)
     run.try_rule(r06_2, model)
+    run.try_rule(r06_17, model)
     run.try_rule(r06_3, model)
     run.try_rule(r06_4, model)
     run.try_rule(r06_5, model)
